@@ -158,6 +158,14 @@ def make_files(ctx, nfiles, ndamaged):
     rng = ctx.rng
     items = []
     window_sweep(ctx, items, not ctx.quick)
+    # a file whose last Stream has an Index bigger than the decoder's temp buffer (2200 Records of 4 bytes), so the
+    # Index decoder is fed straight from the application's reads: always read with 1 and 3 bytes at a time
+    n = len(items)
+    big = dict(n=2200 * 200, kind="rand", seed=rng.randrange(1 << 30), check=rng.choice([0, 1, 4]), preset=0, block_size=200,
+               pad=rng.choice([0, 4]))
+    first = dict(n=rng.choice([1, 300]), kind="text", seed=rng.randrange(1 << 30), check=1, preset=0, block_size=None, pad=rng.choice([0, 8]))
+    items.append(dict(id=n, streams=[first, big], seed=rng.randrange(1 << 30), bigindex=True, max_blocks=4,
+                      path=os.path.join(ctx.workdir, "fi_%d.xz" % n)))
     nsweep = len(items)
     for n in range(nsweep, nsweep + nfiles + ndamaged):
         dmg = n >= nsweep + nfiles
@@ -217,8 +225,9 @@ def xz_list(ctx, item, obs, size):
         return bad("file", "file line %s, model %s" % (got, want))
     if sorted(x.strip() for x in frow[0][6].split(",")) != names:
         return bad("checks", "checks %s, model %s" % (frow[0][6], names))
-    if len(srows) != len(st) or len(brows) != len(bl):
-        return bad("count", "%d stream / %d block lines, model %d / %d" % (len(srows), len(brows), len(st), len(bl)))
+    if len(srows) != len(st) or len(brows) != obs["blocks"]:
+        return bad("count", "%d stream / %d block lines, model %d / %d" % (len(srows), len(brows), len(st), obs["blocks"]))
+    brows = [brows[b["nfile"] - 1] for b in bl]       # (big indexes: the model lists sampled Blocks)
     for row, s in zip(srows, st):
         want = [s["number"], s["blocks"], big(s["coff"]), big(s["uoff"]), big(s["csize"]), big(s["usize"]), big(s["pad"])]
         got = [int(row[k]) for k in (1, 2, 3, 4, 5, 6, 9)]
@@ -238,6 +247,8 @@ def file_info(ctx, nfiles, ndamaged, budget_events):
         if "key" in r:
             raise MachineryError("building file %d failed: %s" % (i, r))
         items[i]["built"] = r
+        if items[i].get("bigindex") and r["layout"][-1][1] <= 8192:
+            raise MachineryError("the big-Index file has an Index of only %d bytes" % r["layout"][-1][1])
     valid = [it for it in items if "damage" not in it]
     plans = eval_histories(ctx, [it["built"]["history"] for it in valid], "files")
     for it, p in zip(valid, plans):
@@ -258,6 +269,8 @@ def file_info(ctx, nfiles, ndamaged, budget_events):
             reads = [8192, size]
         elif it.get("sweep"):
             reads = [size, 1000, 0]
+        elif it.get("bigindex"):
+            reads = [size, 8192, 3, 1]
         else:
             for rs in (7, 1):
                 if spent + size // rs < budget_events and size // rs < budget_events // 6:
@@ -283,6 +296,8 @@ def file_info(ctx, nfiles, ndamaged, budget_events):
                 seen.add("fileinfo:ret:" + t["ret"])
                 ctx.violation("fileinfo:ret:" + t["ret"], "valid file, read size %d: %s" % (t["rs"], t["ret"]),
                               dict(kind="file", item=it["streams"], events=t["events"][-5:]))
+            if it.get("bigindex") and t["rs"] == 1 and ctx.quick:
+                continue          # (quick: the 17000 one-byte calls are made and judged by their result, not trace-validated)
             hists.append(("file%d%s/rs%d" % (it["id"], "dmg" if "damage" in it else "", t["rs"]), t["events"]))
     nev = sum(len(e) for _, e in hists)
     rej = tracev.validate(ctx, "TraceFileInfo", hists,
